@@ -9,6 +9,9 @@
         must be reported, benign twins must stay silent) on scratch copies
         outside /repo and /verif.  It never changes the verdict on /repo; a
         rule that fails its own corpus is an ANALYSIS-ERROR.
+  (iv)  replay of the independent corpora (seeded / benign) for the property;
+  (v)   layout invariance: the same verdicts on a copy of the package re-printed
+        from its syntax trees.
 """
 from __future__ import annotations
 
@@ -205,7 +208,62 @@ def corpora(ctx: Ctx) -> None:
                       '; '.join(f'{k} {c}: expected exit {w}, got {rc}' for k, c, w, rc, _ in bad[:5]))
 
 
+def reformat_invariance(ctx: Ctx) -> None:
+    """(v) the verdict does not hang on layout: every module of the package is re-printed from its syntax tree (`ast.unparse`:
+    comments gone, lines re-broken, quotes and parentheses normalised), the property's quick check is run on that copy, and the
+    multiset of (rule, verdict) pairs must equal the one obtained on /repo.  A difference means some rule or known-finding key
+    depends on text positions - an analysis error of the checker, never a verdict about /repo."""
+    if os.environ.get('AIUTI_NO_SELFTEST'):
+        return
+    import json
+    import shutil
+    import tempfile
+    from collections import Counter
+    verif = os.path.dirname(os.path.dirname(os.path.abspath(__file__)))
+    repo = os.environ.get('AIUTI_REPO', '/repo')
+    d = tempfile.mkdtemp(prefix='aiuti-reformat-')
+    try:
+        shutil.copytree(os.path.join(repo, 'aiuti'), os.path.join(d, 'aiuti'), ignore=shutil.ignore_patterns('__pycache__'))
+        n_mod = 0
+        for root, _dirs, files in os.walk(os.path.join(d, 'aiuti')):
+            for fn in files:
+                if fn.endswith('.py'):
+                    pth = os.path.join(root, fn)
+                    src = open(pth, encoding='utf-8').read()
+                    try:
+                        out = ast.unparse(ast.parse(src)) + '\n'
+                        compile(out, pth, 'exec')
+                    except (SyntaxError, ValueError):
+                        continue
+                    open(pth, 'w', encoding='utf-8').write(out)
+                    n_mod += 1
+        evd = os.path.join(d, '_ev')
+        env = dict(os.environ, AIUTI_REPO=d, AIUTI_EVIDENCE_DIR=evd, PYTHONPATH=verif, AIUTI_NO_SELFTEST='1')
+        # (same tier as this run: some scan rules look at more modules in the thorough tier; the nested run skips (iii)-(v))
+        r = subprocess.run([sys.executable, '-m', 'sa.check', ctx.prop] + (['--thorough'] if ctx.thorough else []), cwd=verif, env=env,
+                           capture_output=True, text=True, timeout=600)
+        there = Counter()
+        try:
+            ev = json.load(open(os.path.join(evd, f'{ctx.prop}.json')))
+            for rid, row in (ev.get('coverage', {}).get('rules') or {}).items():
+                there[rid] = row.get('instances', 0)
+        except (OSError, ValueError):
+            pass
+        here = Counter({rid: sum(1 for o in ctx.obs if o.rule == rid) for rid in ctx.rule_text})
+        diff = {rid: (here.get(rid, 0), there.get(rid, 0)) for rid in set(here) | set(there) if here.get(rid, 0) != there.get(rid, 0)
+                and not rid.startswith(('SELFTEST', 'CORPORA', 'XCHECK', 'REFORMAT'))}
+        ctx.extra['reformat_invariance'] = {'modules_reprinted': n_mod, 'exit_on_reprinted_copy': r.returncode,
+                                            'rules_with_a_different_instance_count': diff}
+        if r.returncode not in (0,) or diff:
+            first = next((ln.strip() for ln in (r.stdout + r.stderr).splitlines() if 'violation rule=' in ln or ln.startswith('ANALYSIS-ERROR')), '')
+            ctx.undecided('REFORMAT', f'verdict on a re-printed copy of the package for {ctx.prop}', 'sa/thorough.py',
+                          f'exit {r.returncode} on the re-printed copy, instance counts differ for {sorted(diff)[:5]}: {first[:160]}')
+    finally:
+        shutil.rmtree(d, ignore_errors=True)
+
+
 def extend(ctx: Ctx) -> None:
     crosscheck(ctx)
     selftest(ctx)
     corpora(ctx)
+    reformat_invariance(ctx)
